@@ -1,1 +1,490 @@
-fn main() {}
+//! C13 — 2PC coordinator restart preserves every logged decision.
+//!
+//! A real `DistributedTxCoordinator` with a `TxWal` is driven by generated calls (begin, votes
+//! incl. duplicate/late/contradicting ones, commit, abort, sweeps, recovery calls). At generated
+//! crash points the log is cut at EVERY byte position the crashing call wrote; a fresh coordinator
+//! is recovered from each prefix and compared with a reference classification computed by the
+//! harness from the records wholly inside the prefix (own frame reader). The generated cut
+//! continues the chain: more calls on the recovered coordinator, up to three crashes.
+
+use nv_engine::{main_for, pick, walframe, CaseCtx, Fail, PropDef, PropPart, Tier};
+use proptest::prelude::*;
+use serde::{Deserialize, Serialize};
+use std::collections::BTreeMap;
+use std::path::{Path, PathBuf};
+use tensor_chain::consensus::{ConsensusManager, DeltaVector};
+use tensor_chain::distributed_tx::{DistributedTxConfig, DistributedTxCoordinator, PrepareVote, TxPhase};
+use tensor_chain::tx_wal::{PrepareVoteKind, TxOutcome, TxWal, TxWalEntry};
+
+#[derive(Clone, Debug, Serialize, Deserialize)]
+enum VoteKind {
+    Yes,
+    No,
+    Conflict,
+}
+
+#[derive(Clone, Debug, Serialize, Deserialize)]
+enum Call {
+    Begin(u8),
+    Vote(u16, u8, VoteKind),
+    /// every missing shard votes yes (keeps the generator productive)
+    AllYes(u16),
+    Commit(u16),
+    Abort(u16),
+    CompleteCommit(u16),
+    CompleteAbort(u16),
+    Sweep,
+    /// the in-memory recovery pass (`recover()`), as run after a restart
+    RecoverPass,
+}
+
+#[derive(Clone, Debug, Serialize, Deserialize)]
+struct Scripted {
+    call: Call,
+    crash: Option<u16>,
+}
+
+#[derive(Clone, Debug, Serialize, Deserialize)]
+struct Case {
+    calls: Vec<Scripted>,
+}
+
+fn call_strategy() -> impl Strategy<Value = Call> {
+    let vk = prop_oneof![6 => Just(VoteKind::Yes), 2 => Just(VoteKind::No), 1 => Just(VoteKind::Conflict)];
+    prop_oneof![
+        4 => (1u8..4).prop_map(Call::Begin),
+        8 => (any::<u16>(), 0u8..3, vk).prop_map(|(t, s, k)| Call::Vote(t, s, k)),
+        4 => any::<u16>().prop_map(Call::AllYes),
+        6 => any::<u16>().prop_map(Call::Commit),
+        3 => any::<u16>().prop_map(Call::Abort),
+        2 => any::<u16>().prop_map(Call::CompleteCommit),
+        2 => any::<u16>().prop_map(Call::CompleteAbort),
+        1 => Just(Call::Sweep),
+        1 => Just(Call::RecoverPass),
+    ]
+}
+
+fn case_strategy(t: Tier) -> impl Strategy<Value = Case> {
+    let max = t.pick(24usize, 32usize);
+    prop::collection::vec((call_strategy(), prop::option::weighted(0.2, any::<u16>())), 1..max)
+        .prop_map(|v| Case { calls: v.into_iter().map(|(call, crash)| Scripted { call, crash }).collect() })
+}
+
+// ------------------------------------------------------------------ reference
+
+/// One surviving log record as the harness sees it.
+#[derive(Clone, Debug)]
+struct Rec {
+    end: usize,
+    entry: TxWalEntry,
+    /// for PrepareVote records: did the live coordinator accept the vote?
+    accepted: bool,
+}
+
+#[derive(Clone, Debug, Default, PartialEq)]
+struct RefTx {
+    participants: Vec<usize>,
+    /// accepted votes: shard -> yes?
+    votes: BTreeMap<usize, bool>,
+    phase: Option<TxPhase>,
+    outcome: Option<bool>, // Some(true) committed, Some(false) aborted
+}
+
+fn classify(recs: &[Rec]) -> BTreeMap<u64, RefTx> {
+    let mut m: BTreeMap<u64, RefTx> = BTreeMap::new();
+    for r in recs {
+        match &r.entry {
+            TxWalEntry::TxBegin { tx_id, participants } => {
+                m.insert(*tx_id, RefTx { participants: participants.clone(), phase: Some(TxPhase::Preparing), ..Default::default() });
+            },
+            TxWalEntry::PrepareVote { tx_id, shard, vote } => {
+                if r.accepted {
+                    if let Some(t) = m.get_mut(tx_id) {
+                        t.votes.entry(*shard).or_insert(matches!(vote, PrepareVoteKind::Yes { .. }));
+                    }
+                }
+            },
+            TxWalEntry::PhaseChange { tx_id, to, .. } => {
+                if let Some(t) = m.get_mut(tx_id) {
+                    t.phase = Some(*to);
+                }
+            },
+            TxWalEntry::TxComplete { tx_id, outcome } => {
+                if let Some(t) = m.get_mut(tx_id) {
+                    if t.outcome.is_none() {
+                        t.outcome = Some(matches!(outcome, TxOutcome::Committed));
+                    }
+                }
+            },
+            _ => {},
+        }
+    }
+    m
+}
+
+// ------------------------------------------------------------------ driver
+
+struct Driver {
+    dir: nv_engine::scratch::Dir,
+    gen: u32,
+    wal: PathBuf,
+    coord: DistributedTxCoordinator,
+    /// records that survive in the current file, in order
+    recs: Vec<Rec>,
+    /// offset where records written by the current incarnation start
+    base: usize,
+    /// transaction ids in creation order (handles)
+    txs: Vec<u64>,
+    next_handle: u64,
+    torn_tail_pending: bool,
+    torn_tail_then_append: bool,
+}
+
+fn open_coord(path: &Path) -> Result<DistributedTxCoordinator, String> {
+    let wal = TxWal::open(path).map_err(|e| format!("TxWal::open: {e}"))?;
+    let mut cfg = DistributedTxConfig::default();
+    // wall clock must never decide anything in this check
+    cfg.prepare_timeout_ms = 3_600_000;
+    cfg.commit_timeout_ms = 3_600_000;
+    Ok(DistributedTxCoordinator::new(ConsensusManager::default_config(), cfg).with_wal(wal))
+}
+
+fn file_len(p: &Path) -> usize {
+    std::fs::metadata(p).map(|m| m.len() as usize).unwrap_or(0)
+}
+
+impl Driver {
+    fn new() -> Result<Self, Fail> {
+        let dir = nv_engine::scratch::Dir::new("c13");
+        let wal = dir.join("tx-0.wal");
+        let coord = open_coord(&wal).map_err(|e| Fail::new("harness", e))?;
+        Ok(Self { dir, gen: 0, wal, coord, recs: Vec::new(), base: 0, txs: Vec::new(), next_handle: 1, torn_tail_pending: false, torn_tail_then_append: false })
+    }
+
+    fn tx(&self, h: u16) -> Option<u64> {
+        if self.txs.is_empty() {
+            None
+        } else {
+            Some(self.txs[pick(h, self.txs.len())])
+        }
+    }
+
+    fn vote(&mut self, k: &VoteKind) -> PrepareVote {
+        let h = self.next_handle;
+        self.next_handle += 1;
+        match k {
+            VoteKind::Yes => PrepareVote::Yes { lock_handle: h, delta: DeltaVector::zero(0) },
+            VoteKind::No => PrepareVote::No { reason: "no".into() },
+            VoteKind::Conflict => PrepareVote::Conflict { similarity: 0.9, conflicting_tx: 1 },
+        }
+    }
+
+    /// Parse the records appended since `from` and tag vote acceptance in call order.
+    fn absorb(&mut self, from: usize, accepted: &[bool]) -> Result<(), Fail> {
+        let bytes = std::fs::read(&self.wal).map_err(|e| Fail::new("harness", e.to_string()))?;
+        let mut vi = 0;
+        for f in walframe::frames(&bytes[from..]) {
+            let payload = &bytes[from + f.start + 8..from + f.end];
+            let entry: TxWalEntry = bitcode::deserialize(payload)
+                .map_err(|e| Fail::new("harness", format!("cannot decode a record the coordinator just wrote: {e}")))?;
+            let mut acc = true;
+            if matches!(entry, TxWalEntry::PrepareVote { .. }) {
+                acc = accepted.get(vi).copied().unwrap_or(false);
+                vi += 1;
+            }
+            self.recs.push(Rec { end: from + f.end, entry, accepted: acc });
+        }
+        Ok(())
+    }
+
+    fn exec(&mut self, call: &Call, ctx: &mut CaseCtx) -> Result<(), Fail> {
+        let from = file_len(&self.wal);
+        let mut accepted: Vec<bool> = Vec::new();
+        let mut acked: Option<(u64, bool)> = None;
+        match call {
+            Call::Begin(k) => {
+                let parts: Vec<usize> = (0..*k as usize).collect();
+                if let Ok(tx) = self.coord.begin(&"coord".to_string(), &parts) {
+                    self.txs.push(tx.tx_id);
+                    ctx.label("call:begin");
+                }
+            },
+            Call::Vote(h, s, k) => {
+                if let Some(id) = self.tx(*h) {
+                    let v = self.vote(k);
+                    let r = self.coord.record_vote(id, *s as usize, v);
+                    accepted.push(r.is_ok());
+                    match r {
+                        Ok(_) => ctx.label("call:vote accepted"),
+                        Err(_) => ctx.label("call:vote rejected (late/duplicate/unknown)"),
+                    }
+                }
+            },
+            Call::AllYes(h) => {
+                if let Some(id) = self.tx(*h) {
+                    if let Some(tx) = self.coord.get(id) {
+                        for s in tx.participants.clone() {
+                            if !tx.votes.contains_key(&s) {
+                                let v = self.vote(&VoteKind::Yes);
+                                accepted.push(self.coord.record_vote(id, s, v).is_ok());
+                            }
+                        }
+                    }
+                }
+            },
+            Call::Commit(h) => {
+                if let Some(id) = self.tx(*h) {
+                    if self.coord.commit(id).is_ok() {
+                        acked = Some((id, true));
+                        ctx.label("call:commit ok");
+                    }
+                }
+            },
+            Call::Abort(h) => {
+                if let Some(id) = self.tx(*h) {
+                    if self.coord.abort(id, "client").is_ok() {
+                        acked = Some((id, false));
+                        ctx.label("call:abort ok");
+                    }
+                }
+            },
+            Call::CompleteCommit(h) => {
+                if let Some(id) = self.tx(*h) {
+                    if self.coord.complete_commit(id).is_ok() {
+                        ctx.label("call:complete_commit ok");
+                    }
+                }
+            },
+            Call::CompleteAbort(h) => {
+                if let Some(id) = self.tx(*h) {
+                    if self.coord.complete_abort(id).is_ok() {
+                        ctx.label("call:complete_abort ok");
+                    }
+                }
+            },
+            Call::Sweep => {
+                let _ = self.coord.cleanup_timeouts();
+                let _ = self.coord.take_pending_aborts();
+            },
+            Call::RecoverPass => {
+                let _ = self.coord.recover();
+            },
+        }
+        self.absorb(from, &accepted)?;
+        // an acknowledged decision must be in the log when the call returns (log before state change)
+        if let Some((id, committed)) = acked {
+            let logged = self.recs.iter().any(|r| {
+                matches!(&r.entry, TxWalEntry::TxComplete { tx_id, outcome } if *tx_id == id && matches!(outcome, TxOutcome::Committed) == committed)
+            });
+            if !logged {
+                ctx.fail(
+                    "acknowledged-decision-not-logged",
+                    format!("{}() returned Ok for transaction {id} but the log holds no matching TxComplete record", if committed { "commit" } else { "abort" }),
+                )?;
+            }
+        }
+        self.check_no_reversal(ctx)
+    }
+
+    /// Over the surviving log: no transaction has completion records of both kinds.
+    fn check_no_reversal(&self, ctx: &mut CaseCtx) -> Result<(), Fail> {
+        let mut seen: BTreeMap<u64, bool> = BTreeMap::new();
+        for r in &self.recs {
+            if let TxWalEntry::TxComplete { tx_id, outcome } = &r.entry {
+                let c = matches!(outcome, TxOutcome::Committed);
+                if let Some(prev) = seen.get(tx_id) {
+                    if *prev != c {
+                        let sig = if self.torn_tail_then_append { "outcome-reversed-after-torn-tail" } else { "outcome-reversed" };
+                        return ctx.fail(
+                            sig,
+                            format!("transaction {tx_id} has a logged completion as {} and a later one as {}", name(*prev), name(c)),
+                        );
+                    }
+                }
+                seen.insert(*tx_id, c);
+            }
+        }
+        Ok(())
+    }
+
+    /// Recover a fresh coordinator from `path` and compare with the reference for `recs`.
+    /// `probe` = also try to drive every transaction (mutates the probe copy).
+    fn check_recovery(&self, path: &Path, recs: &[Rec], ctx: &mut CaseCtx, what: &str, probe: bool) -> Result<Option<DistributedTxCoordinator>, Fail> {
+        let suffix = if self.torn_tail_then_append { "-after-torn-tail" } else { "" };
+        let coord = match open_coord(path) {
+            Ok(c) => c,
+            Err(e) => {
+                ctx.fail(format!("open-failed{suffix}"), format!("{what}: {e}"))?;
+                return Ok(None);
+            },
+        };
+        if let Err(e) = coord.recover_from_wal() {
+            ctx.fail(
+                format!("recovery-failed{suffix}"),
+                format!("{what}: recover_from_wal failed on a prefix of the coordinator's own log: {e}"),
+            )?;
+            return Ok(None);
+        }
+        let reference = classify(recs);
+        for (id, rt) in &reference {
+            let got = coord.get(*id);
+            match (rt.outcome, rt.phase) {
+                (Some(c), _) => {
+                    if let Some(g) = &got {
+                        ctx.fail(
+                            format!("completed-tx-pending-again{suffix}"),
+                            format!("{what}: transaction {id} was logged complete ({}) but is pending again in phase {:?}", name(c), g.phase),
+                        )?;
+                    }
+                    if probe {
+                        if coord.commit(*id).is_ok() && !c {
+                            ctx.fail(format!("aborted-tx-committed{suffix}"), format!("{what}: transaction {id} was logged aborted; commit() succeeded after recovery"))?;
+                        }
+                        if coord.abort(*id, "probe").is_ok() && c {
+                            ctx.fail(format!("committed-tx-aborted{suffix}"), format!("{what}: transaction {id} was logged committed; abort() succeeded after recovery"))?;
+                        }
+                    }
+                },
+                (None, Some(ph @ (TxPhase::Prepared | TxPhase::Committing | TxPhase::Aborting))) => {
+                    let Some(g) = got else {
+                        ctx.fail(
+                            format!("undecided-tx-forgotten{suffix}"),
+                            format!("{what}: transaction {id} was logged in phase {ph:?} without an outcome but is absent after recovery"),
+                        )?;
+                        continue;
+                    };
+                    if g.phase != ph {
+                        ctx.fail(format!("phase-changed{suffix}"), format!("{what}: transaction {id} logged in phase {ph:?} came back as {:?}", g.phase))?;
+                    }
+                    let gv: BTreeMap<usize, bool> = g.votes.iter().map(|(s, v)| (*s, matches!(v, PrepareVote::Yes { .. }))).collect();
+                    if gv != rt.votes {
+                        ctx.fail(
+                            format!("votes-differ{suffix}"),
+                            format!("{what}: transaction {id} ({ph:?}) had accepted votes {:?} (shard -> yes) but came back with {gv:?}", rt.votes),
+                        )?;
+                    }
+                    if probe {
+                        let r = match ph {
+                            TxPhase::Prepared => coord.commit(*id).map_err(|e| e.to_string()),
+                            TxPhase::Committing => coord.complete_commit(*id).map_err(|e| e.to_string()),
+                            _ => coord.complete_abort(*id).map_err(|e| e.to_string()),
+                        };
+                        if let Err(e) = r {
+                            ctx.fail(format!("cannot-complete{suffix}"), format!("{what}: recovered transaction {id} in phase {ph:?} cannot be driven to completion: {e}"))?;
+                        }
+                        if coord.get(*id).is_some() {
+                            ctx.fail(format!("cannot-complete{suffix}"), format!("{what}: transaction {id} still pending after its completion call"))?;
+                        }
+                    }
+                },
+                _ => {
+                    if let Some(g) = got {
+                        ctx.fail(
+                            format!("preparing-tx-restored{suffix}"),
+                            format!("{what}: transaction {id} was still collecting votes and must be forgotten, but is pending in phase {:?}", g.phase),
+                        )?;
+                    }
+                },
+            }
+        }
+        if !probe && coord.lock_manager().active_lock_count() != 0 {
+            ctx.fail(format!("locks-left{suffix}"), format!("{what}: {} locks held right after recovery", coord.lock_manager().active_lock_count()))?;
+        }
+        Ok(Some(coord))
+    }
+}
+
+fn name(c: bool) -> &'static str {
+    if c {
+        "committed"
+    } else {
+        "aborted"
+    }
+}
+
+fn run_case(case: &Case, ctx: &mut CaseCtx) -> Result<(), Fail> {
+    let mut d = Driver::new()?;
+    let mut crashes = 0;
+    let mut cut_inside_decision = false;
+    for sc in &case.calls {
+        let before = file_len(&d.wal);
+        let nrecs_before = d.recs.len();
+        d.exec(&sc.call, ctx)?;
+        if ctx.known_hit() {
+            return Ok(());
+        }
+        let after = file_len(&d.wal);
+        if after > before && d.torn_tail_pending {
+            d.torn_tail_then_append = true;
+            ctx.label("appended after a torn tail");
+        }
+        let Some(frac) = sc.crash else { continue };
+        if crashes >= 3 || after == before {
+            continue;
+        }
+        crashes += 1;
+        ctx.label("crash");
+        let bytes = std::fs::read(&d.wal).map_err(|e| Fail::new("harness", e.to_string()))?;
+        let multi = d.recs.len() - nrecs_before >= 2;
+        // every byte prefix of what the call wrote
+        for c in before..=after {
+            let p = d.dir.join("probe.wal");
+            std::fs::write(&p, &bytes[..c]).map_err(|e| Fail::new("harness", e.to_string()))?;
+            let recs: Vec<Rec> = d.recs.iter().filter(|r| r.end <= c).cloned().collect();
+            let what = format!("crash at byte {c} (call {:?} wrote {before}..{after})", sc.call);
+            let _ = d.check_recovery(&p, &recs, ctx, &what, true)?;
+            let _ = std::fs::remove_file(&p);
+            if ctx.known_hit() {
+                return Ok(());
+            }
+        }
+        // the generated cut continues the chain
+        let c = before + pick(frac, after - before + 1);
+        let on_boundary = c == before || d.recs.iter().any(|r| r.end == c);
+        if multi && c > before && c < after {
+            cut_inside_decision = true;
+            ctx.label("cut inside the record sequence of one call");
+        }
+        d.recs.retain(|r| r.end <= c);
+        d.gen += 1;
+        let p = d.dir.join(&format!("tx-{}.wal", d.gen));
+        std::fs::write(&p, &bytes[..c]).map_err(|e| Fail::new("harness", e.to_string()))?;
+        let what = format!("chain restart {} at byte {c}", d.gen);
+        let recs = d.recs.clone();
+        let coord = d.check_recovery(&p, &recs, ctx, &what, false)?;
+        if ctx.known_hit() {
+            return Ok(());
+        }
+        let Some(coord) = coord else { return Ok(()) };
+        d.coord = coord;
+        d.wal = p;
+        d.base = file_len(&d.wal);
+        if !on_boundary {
+            d.torn_tail_pending = true;
+            ctx.label("crash inside a record");
+        }
+        if crashes >= 2 {
+            ctx.label("chain of >=2 crashes");
+        }
+    }
+    if cut_inside_decision || crashes >= 2 {
+        ctx.set_nontrivial();
+    }
+    Ok(())
+}
+
+fn main() {
+    main_for(PropDef {
+        id: "C13",
+        level: "fault_enumeration",
+        rule: "scripts of 1..24 (quick) / 1..32 (thorough) coordinator calls over up to ~6 transactions (begin, votes incl. duplicate/late/contradicting, commit, abort, complete_*, sweeps, recover()) with up to 3 crash points; at each crash the TxWal is cut at EVERY byte the crashing call wrote and a fresh coordinator is recovered from each prefix and driven; the generated cut continues the chain. non-trivial = a cut strictly inside the multi-record sequence of one call (between PhaseChange / TxComplete / LockRelease ...) or a second crash; distinct = distinct generated script",
+        assumptions: vec![
+            "a crash loses everything after a byte position of the append-only log and nothing before it (omitted fsync is invisible)",
+            "the reference classification uses the harness's own frame reader; record payloads are decoded with the product's bitcode schema (codec only, no recovery logic)",
+            "a vote counts as logged-and-accepted only if record_vote returned Ok for it (record_vote logs before validating)",
+            "timeouts are set to 1 h so that wall clock never decides; the fixed 5 s timeout of restored transactions is never awaited",
+        ],
+        parts: vec![PropPart::new("crash", 60_000, 4_000_000, case_strategy, run_case).boxed()],
+        children: vec![],
+    });
+}
